@@ -492,11 +492,10 @@ func (ft *funcTrans) makeIface(t Term, gt types.Type) Term {
 	}
 	box := "box_" + sanitize(t.Sort.Name)
 	unbox := "unbox_" + sanitize(t.Sort.Name)
-	if !w.funDeclared[box] {
-		w.declFun(box, []string{t.Sort.Name}, "Int")
-		w.declFun(unbox, []string{"Int"}, t.Sort.Name)
-		w.funDecls = append(w.funDecls, fmt.Sprintf("(assert (forall ((x %s)) (! (= (%s (%s x)) x) :pattern ((%s x)))))", t.Sort.Name, q(unbox), q(box), q(box)))
-	}
+	w.declFun(box, []string{t.Sort.Name}, "Int")
+	w.declFun(unbox, []string{"Int"}, t.Sort.Name)
+	// ground instance of injectivity (no quantified axiom: keeps sat answers and models available)
+	w.addFact(fmt.Sprintf("(= (%s (%s %s)) %s)", q(unbox), q(box), t.S, t.S))
 	return Term{fmt.Sprintf("(mk-iface %d (%s %s))", id, q(box), t.S), is}
 }
 
